@@ -9,3 +9,10 @@ pub use block_filter::FilterProtocol;
 
 #[cfg(test)]
 pub(crate) use block_filter::GET_BLOCK_FILTERS_TOKEN;
+
+#[cfg(nervosnetwork_ckb_light_client_verif)]
+pub(crate) mod verif_exports {
+    pub(crate) use super::block_filter::{
+        GET_BLOCK_FILTERS_DURATION, GET_BLOCK_FILTERS_TOKEN,
+    };
+}
